@@ -302,6 +302,24 @@ func c17Observe(s *c17State, res *engine.Result, ctx string) {
 	for i := range got {
 		got[i] ^= 0xFF
 	}
+	// ... and the packets the list points to: whatever the caller does with the list it was handed, the
+	// accumulated BYTES stay the concatenation of the payloads that were written (the packets are put back
+	// afterwards: whether later Packets() calls show the caller's scribbling is not asserted)
+	for i := range gp {
+		if gp[i] == nil || (i >= 2 && i < len(gp)-1) {
+			continue // long lists: the first two packets and the last one
+		}
+		save := *gp[i]
+		for j := range gp[i] {
+			gp[i][j] ^= 0xA5
+		}
+		if again := s.acc.Bytes(); !bytes.Equal(again, s.data) {
+			res.Failf(ctx+"|Bytes-follow-the-returned-packets", "writing into packet %d of the list returned by Packets() changed Bytes()", i)
+			*gp[i] = save
+			break
+		}
+		*gp[i] = save
+	}
 	for i := range gp {
 		gp[i] = nil
 	}
@@ -375,7 +393,7 @@ func init() {
 		Scenarios: []engine.ScenarioRunner{
 			&engine.BFS[*c17State]{
 				Name:  "histories",
-				Rule:  "BFS over all histories of {WritePacket(p) for 15 packets (unit starts carrying a PES packet start that announces fewer / more bytes than the payload holds and a PSI section start; PUSI/continuation x 184-byte payloads A/B, 3-byte and 1-byte payloads behind adaptation-field stuffing, AF-only with and without PUSI, AF length 183 with payload flag, adaptation_field_control 00 with and without PUSI), Reset} from a new accumulator, one run per completion predicate (never; done at >=1/184/185/368 bytes; error at >=184/368; done-then-error; error-after-done); after every call Bytes(), Packets(), the predicate's argument, the returned error class and input immutability are compared with a list model, returned slices are overwritten as aliasing probes, and after Reset the canonical state must equal a new accumulator's; canonical key = private state (hook) + bytes + packets + model flags; depth 6 (quick) / 8 (thorough)",
+				Rule:  "BFS over all histories of {WritePacket(p) for 15 packets (unit starts carrying a PES packet start that announces fewer / more bytes than the payload holds and a PSI section start; PUSI/continuation x 184-byte payloads A/B, 3-byte and 1-byte payloads behind adaptation-field stuffing, AF-only with and without PUSI, AF length 183 with payload flag, adaptation_field_control 00 with and without PUSI), Reset} from a new accumulator, one run per completion predicate (never; done at >=1/184/185/368 bytes; error at >=184/368; done-then-error; error-after-done); after every call Bytes(), Packets(), the predicate's argument, the returned error class and input immutability are compared with a list model, returned slices are overwritten as aliasing probes (also the packets the returned list points to: Bytes() must not follow them), and after Reset the canonical state must equal a new accumulator's; canonical key = private state (hook) + bytes + packets + model flags; depth 6 (quick) / 8 (thorough)",
 				Inits: func(r *engine.Run) []int { return seq(0, len(c17Preds)-1) },
 				NOps:  func(r *engine.Run) int { return len(c17Alphabet) + 1 },
 				New:   c17New,
